@@ -5,7 +5,12 @@ package world
 import "perun.network/go-perun/simhook"
 
 // InstallYields routes the repository's yield points to this run's simulator.
-func InstallYields(s *Sim) { simhook.SetHandler(s.Yield) }
+func InstallYields(s *Sim) {
+	simhook.ResetHeld()
+	simhook.SetHandler(s.Yield)
+}
+
+func heldNow() int64 { return simhook.HeldCount() }
 
 // RemoveYields detaches the simulator.
 func RemoveYields() { simhook.SetHandler(nil) }
